@@ -212,11 +212,13 @@ fn life_cfg(name: String, is7: bool, d: u32) -> Config
                 });
                 // new reactors (and actor 0) fire triggers from inside their runs (self-triggering, nested, several
                 // triggers in one tree)
-                c.script = Arc::new(move |_i: &DynInfo| {
+                c.script = Arc::new(move |i: &DynInfo| {
                     let mut v = vec![Op::Broadcast(Ev::A), Op::EntityEvent(Ev::A, 0), Op::Despawn(0), Op::ResMutate(How::GetMut)];
                     // a (despawn) reactor that despawns the other watched entity and then runs another system: the
                     // second despawn is detected while the reactor is still executing
                     if is7 { v.push(Op::Despawn(1)); v.push(Op::Run(0)); }
+                    // a one-off reactor that despawns its own entity from its body (its wrapper finds it gone)
+                    if !is7 { if let Where::Script(r, _) = i.at { if r.actor != 0 { v.push(Op::DespawnSys(r.actor)); } } }
                     v
                 });
                 c.max_top = d;
